@@ -103,15 +103,16 @@ func posOf(n ast.Node) token.Pos {
 type normaliser struct {
 	fset    *token.FileSet
 	repo    string
-	consts  map[string]int64         // package-level integer constants of package commands
-	helpers map[string]*ast.FuncDecl // package-level plain functions of package commands
-	cur     *jCmd                    // the structure whose method is being normalised
-	fixed   map[string]int           // types.T -> K when every successful return of T.Unmarshal is the literal K (0: not so)
+	consts  map[string]int64           // package-level integer constants of package commands
+	helpers map[string]*ast.FuncDecl   // package-level plain functions of package commands
+	cur     *jCmd                      // the structure whose method is being normalised
+	fixed   map[string]int             // types.T -> K when every successful return of T.Unmarshal is the literal K (0: not so)
+	structs map[string]*ast.StructType // package-level record types of package commands (U12)
 	nfresh  int
 }
 
 func newNormaliser(fset *token.FileSet, repo string, files []*ast.File) *normaliser {
-	nz := &normaliser{fset: fset, repo: repo, consts: map[string]int64{}, helpers: map[string]*ast.FuncDecl{}, fixed: map[string]int{}}
+	nz := &normaliser{fset: fset, repo: repo, consts: map[string]int64{}, helpers: map[string]*ast.FuncDecl{}, fixed: map[string]int{}, structs: map[string]*ast.StructType{}}
 	for pass := 0; pass < 64; pass++ { // constants may refer to each other (a chain of named offsets)
 		for _, af := range files {
 			for _, d := range af.Decls {
@@ -136,6 +137,15 @@ func newNormaliser(fset *token.FileSet, repo string, files []*ast.File) *normali
 		for _, d := range af.Decls {
 			if fd, ok := d.(*ast.FuncDecl); ok && fd.Recv == nil && fd.Body != nil {
 				nz.helpers[fd.Name.Name] = fd
+			}
+			if gd, ok := d.(*ast.GenDecl); ok && gd.Tok == token.TYPE {
+				for _, sp := range gd.Specs {
+					if ts, ok := sp.(*ast.TypeSpec); ok && ts.Assign == token.NoPos {
+						if st, ok := ts.Type.(*ast.StructType); ok {
+							nz.structs[ts.Name.Name] = st
+						}
+					}
+				}
 			}
 		}
 	}
@@ -1270,9 +1280,12 @@ func (nz *normaliser) normUnmarshal(fd *ast.FuncDecl, c *jCmd) []ast.Stmt {
 	list = nz.exprClosures(fd, list)
 	list = nz.inlineCalls(fd, list)
 	list = nz.cursor(fd, list)
+	list = nz.tableLoops(fd, list)
 	list = nz.shrinkingSlice(list)
 	list = nz.mapBlocks(list, nz.intTemps)
+	list = nz.mapBlocks(list, nz.cursorForms)
 	list = nz.mapBlocks(list, nz.guardForms)
+	list = nz.mapBlocks(list, nz.indexedTemps)
 	list = nz.mapBlocks(list, nz.sliceTemps)
 	list = nz.mapBlocks(list, nz.byteAssembly)
 	list = nz.mapBlocks(list, nz.hoistedBound)
